@@ -604,7 +604,8 @@ Definition step (sc : scenario) (s : state) (e : event) : option state :=
       match lookup j (n_queue n) with
       | Some [] =>
         if n_alive n && (N.of_nat (length (n_running n)) <? n_depth n)
-           && (if hk_node_setup (sc_hooks sc) then n_setup n else true) && negb (n_teardown n) then
+           && (if hk_node_setup (sc_hooks sc) then n_setup n else true) && negb (n_teardown n)
+           && negb (flag sc j && has_failed_dep sc j (rows s)) then
           Some {| created := created s; st := st s; bl := bl s; ids := ids s; next_index := next_index s;
                   holder := holder s; marker := marker s; complete := complete s; canceled := canceled s;
                   rows := rows s; pending := pending s; processed := processed s; hpc := hpc s;
